@@ -51,6 +51,8 @@ fn surface(deser: Deser) -> SurfaceCfg {
     s.blank_cdata = false;
     // quick-xml's and xml-rs' deserializers reject references to entities declared in a DTD
     s.general_entities = false;
+    // the deserialised values are compared: how each deserializer trims Unicode white space is not this crate's business
+    s.unicode_ws = false;
     if deser == Deser::SerdeXmlRs {
         // xml-rs is a validating-ish parser: keep to what it accepts for certain
         s.doctype_subset = false;
